@@ -220,17 +220,22 @@ func (b *batchWrap) Commit(ctx context.Context) error {
 		}
 		return inner.Commit(ctx)
 	}
+	if fault == "e" || fault == "un" || fault == "ua" {
+		// a fault directive is consumed only by a commit whose conditions hold; otherwise the engine's
+		// own verdict is returned and the directive stays pending for the next commit
+		if err := b.dry(ctx); err != nil {
+			b.w.c.mu.Lock()
+			if cidOf(ctx) == "" || !b.w.c.gated {
+				b.w.c.faults = append([]string{fault}, b.w.c.faults...)
+			}
+			b.w.c.mu.Unlock()
+			return err
+		}
+	}
 	switch fault {
 	case "e":
-		// conditions are still evaluated by the engine; a plain error replaces success only
-		if err := b.dry(ctx); err != nil {
-			return err
-		}
 		return errInjected
 	case "un":
-		if err := b.dry(ctx); err != nil {
-			return err
-		}
 		return storage.NewErrUncertainResult(errInjected)
 	case "ua":
 		if err := run(); err != nil {
